@@ -74,42 +74,45 @@ def run(ctx, facts):
                          "the product alone and the offset added in integer arithmetic (or an integer range sample lastidx..m). Lemma: for x a "
                          "multiple of 2^-53 in [0,1) and an integer n < 2^53 the rounded product x*n is < n, so the index is in [lastidx, m-1]; "
                          "adding the offset in floating point loses this (the sum can round up to m)")
-    idx_defs = [nf.nf(e, casts=False) for e in def_exprs(nx, "idx")]
-    xsi_defs = [nf.nf(e, casts=True) for e in def_exprs(nx, "xsi")]
-    good_forms = {"(self.lastidx + ((((self.m - self.lastidx) as f64) * xsi) as usize))", "(self.lastidx + ((xsi * ((self.m - self.lastidx) as f64)) as usize))",
-                  "((((self.m - self.lastidx) as f64) * xsi) as usize + self.lastidx)"}
-    # nf sorts commutative operands; compute the normal form of the accepted shapes by normalising spaces only
+    from ..rulelib import resolver_of
+    R = resolver_of(nx)
+    RNG = hirq.show_pat(nx["params"][1]["pat"])
+    sw = self_method_calls(nx, "v", ["swap"])
+    idx_forms = []
+    if len(sw) == 1:
+        idx_forms = [nf.nf(a, casts=False, res=R) for a in sw[0]["args"] if nf.nf(a, True, res=R) != "self.lastidx"]
     canon = lambda s_: s_.replace(" ", "")
-    okidx = len(idx_defs) == 1 and (canon(idx_defs[0]) in {canon(g) for g in good_forms} or
-                                    canon(idx_defs[0]) in {canon("(self.lastidx + ((((self.m - self.lastidx) as f64) * xsi) as usize))"), canon("(((((self.m - self.lastidx) as f64) * xsi) as usize) + self.lastidx)")})
+    U = "self.unif_01.sample(%s)" % RNG
+    good_forms = {canon("(self.lastidx + ((((self.m - self.lastidx) as f64) * %s) as usize))" % U), canon("(self.lastidx + ((%s * ((self.m - self.lastidx) as f64)) as usize))" % U),
+                  canon("(((((self.m - self.lastidx) as f64) * %s) as usize) + self.lastidx)" % U), canon("((((self.m - self.lastidx) as f64) * %s) as usize + self.lastidx)" % U)}
+    okidx = len(idx_forms) == 1 and canon(idx_forms[0]) in good_forms
     ctor = facts.fn(FY + "new")
     unif = [nf.nf(f["e"], True) for x in hirq.walk(ctor["hir"]) if x["k"] == "Struct" for f in x["fields"] if f["name"] == "unif_01"]
-    okx = xsi_defs == ["self.unif_01.sample(rng)"] and unif in (["rand_distr::Uniform::<X>::new(0.0, 1.0).unwrap()"], ["rand::distr::Uniform::<X>::new(0.0, 1.0).unwrap()"])
+    okx = unif in (["rand_distr::Uniform::<X>::new(0.0, 1.0).unwrap()"], ["rand::distr::Uniform::<X>::new(0.0, 1.0).unwrap()"])
     if okidx and okx:
-        ctx.ok("IDXRANGE", FY + "next", "idx = lastidx + trunc(xsi * (m - lastidx)), xsi ~ Uniform[0,1)", hirq.loc(nx))
+        ctx.ok("IDXRANGE", FY + "next", "idx = lastidx + trunc(U * (m - lastidx)), U ~ Uniform[0,1)", hirq.loc(nx))
     else:
         ctx.violation("IDXRANGE", FY + "next", "index formula", hirq.loc(nx),
-                      "the drawn index is `%s` with xsi = %s (unif_01 = %s): not the shape for which idx in [lastidx, m-1] is guaranteed — e.g. adding lastidx in floating point lets the sum round up to m (out-of-bounds for a generator output at the top of the unit interval)"
-                      % (idx_defs, xsi_defs, unif))
+                      "the drawn index is `%s` (unif_01 = %s): not the shape for which idx in [lastidx, m-1] is guaranteed — e.g. adding lastidx in floating point lets the sum round up to m (out-of-bounds for a generator output at the top of the unit interval)"
+                      % (idx_forms, unif))
     # DRAWSHAPE
     swaps = [m for m in self_method_calls(nx, "v", ["swap"])]
-    tail = nf.strip(body["expr"]) if "expr" in body else None
     good = False
     msg = ""
-    if len(swaps) == 1 and tail is not None and tail["k"] == "Path" and "local" in tail["res"]:
-        val = tail["res"]["name"]
-        vd = def_exprs(nx, val)
-        args = {nf.nf(a) for a in swaps[0]["args"]}
-        if len(vd) == 1:
-            d = nf.strip(vd[0])
-            if d["k"] == "Index" and nf.nf(d["base"]) == "self.v":
-                idx = nf.nf(d["idx"])
-                if args == {idx, "self.lastidx"} and hir_dominates(t, vd[0], swaps[0]) and plus and hir_dominates(t, swaps[0], plus[0]):
-                    good = True
-                else:
-                    msg = "swap(%s) / returned v[%s] / order of read, swap, increment" % (sorted(args), idx)
-            else:
-                msg = "returned value is %s" % nf.nf(d)
+    if len(swaps) == 1 and "expr" in body:
+        ret = nf.nf(body["expr"], True, res=R)
+        args = {nf.nf(a, True, res=R) for a in swaps[0]["args"]}
+        other = [a for a in args if a != "self.lastidx"]
+        tail = nf.strip(body["expr"])
+        # the returned value must have been read before the swap: it is a local whose let precedes the swap
+        read_before = False
+        if tail["k"] == "Path" and "local" in tail["res"]:
+            lets = [x for x in user_nodes(nx) if x["k"] == "Let" and x["pat"]["k"] == "Bind" and x["pat"]["id"] == tail["res"]["local"]]
+            read_before = bool(lets) and hir_dominates(t, lets[0], swaps[0])
+        if len(other) == 1 and "self.lastidx" in args and ret == "self.v[%s]" % other[0] and read_before and plus and hir_dominates(t, swaps[0], plus[0]):
+            good = True
+        else:
+            msg = "swap(%s) / returned %s / order of read, swap, increment" % (sorted(a[:40] for a in args), ret[:60])
     if good:
         ctx.ok("DRAWSHAPE", FY + "next", "returns v[idx] read before v.swap(idx, lastidx); increment after the swap", hirq.loc(swaps[0]))
     else:
